@@ -30,7 +30,7 @@ ANCHORS = [
     "acnportal.acnsim.network.current:Current.__sub__",
     "acnportal.acnsim.network.charging_network:ChargingNetwork.is_feasible",
 ]
-REQUIRED = ["accepted_schedules_judged", "narrow_typed_whole_ampere_schedules", "narrow_typed_schedules_accepted", "boundary_points", "vertex_points", "structure_walks", "site:caltech", "site:caltech-via-deprecated-alias", "site:jpl", "site:office001",
+REQUIRED = ["accepted_schedules_judged", "malformed_candidates_with_tolerances_of_their_own_refused_before_the_search", "sites_built_with_an_explicit_evse_voltage", "narrow_typed_whole_ampere_schedules", "narrow_typed_schedules_accepted", "boundary_points", "vertex_points", "structure_walks", "site:caltech", "site:caltech-via-deprecated-alias", "site:jpl", "site:office001",
             "evse:basic", "evse:real", "cap:default", "cap:scaled", "cap:zero", "sim_columns_judged", "linear_mode_points", "multi_period_matrices", "multi_period_accepted", "long_plans_with_one_overloading_column", "networks_printed_compared_hashed_before_use", "same_array_object_checked_again_after_in_place_edit", "site_factory_called_with_positional_arguments", "transformer_power_within_1pct_of_rating",
             "panel_or_pod_binding"]
 BUDGET_S = {"quick": 240, "thorough": 3000}
@@ -59,8 +59,16 @@ def wiring(site, ids, caps):
                        ("Fourth Floor Panel", lambda s: s.startswith("AG-4F"), 225.0)]}
 
 
-def build_site(site, basic, caps, alias=None):
+def build_site(site, basic, caps, alias=None, voltage=None):
     from acnportal.acnsim.network.sites import caltech_acn, jpl_acn, office001_acn
+    if voltage is not None:
+        # the documented `voltage` argument (what the EVSEs see; "does not affect the current rating of the transformer which is
+        # based on nominal voltages in the network"): the ratings are judged at the nominal 208 V / 120 V whatever it is
+        if site == "caltech":
+            return caltech_acn(basic_evse=basic, voltage=voltage, transformer_cap=caps[0])
+        if site == "office001":
+            return office001_acn(basic_evse=basic, voltage=voltage, transformer_cap=caps[0])
+        return jpl_acn(basic_evse=basic, voltage=voltage, first_transformer_cap=caps[0], third_fourth_transformer_cap=caps[1])
     if site == "caltech":
         if alias:
             import contextlib
@@ -100,6 +108,8 @@ def cases(seed, tier):
                     out.append({"site": site, "basic": basic, "caps": list(caps), "captag": tag, "ndirs": nd, "seed": rng.randrange(1 << 30),
                                 "sim": r == 0, "alias": (rng.choice(["kw", "pos"]) if site == "caltech" and r == 1 else
                                                          "positional" if (r == 2 or tag == "zero") else None)})
+                    if out[-1]["alias"] is None and rng.random() < 0.35:
+                        out[-1]["voltage"] = rng.choice([200, 120, 110, 220, 240, 480, 208.0])
     return out
 
 
@@ -200,7 +210,9 @@ def run_case(case, obs):
     rng = random.Random(case["seed"])
     nrng = np.random.default_rng(case["seed"])
     alias = case.get("alias")
-    net = build_site(site, basic, caps, alias=alias)
+    net = build_site(site, basic, caps, alias=alias, voltage=case.get("voltage"))
+    if case.get("voltage") is not None:
+        obs.ev("sites_built_with_an_explicit_evse_voltage")
     if alias == "positional":
         obs.ev("site_factory_called_with_positional_arguments")
     elif alias:
@@ -217,7 +229,7 @@ def run_case(case, obs):
                 twin = ChargingNetwork.from_json(net.to_json())
             except Exception:
                 twin = None
-            poke(net, *([twin] if twin is not None else []), build_site(site, basic, caps))
+            poke(net, *([twin] if twin is not None else []), build_site(site, basic, caps, voltage=case.get("voltage")))
         obs.ev("networks_printed_compared_hashed_before_use")
     ids = list(net.station_ids)
     n = len(ids)
@@ -251,6 +263,13 @@ def run_case(case, obs):
                 out[i] = lv.max() if len(lv) else 0.0
         return out
 
+    if case["seed"] % 2 == 0:
+        # a malformed candidate (one row too many) checked with generous tolerances of its own raises; the caller moves on - what
+        # the network admits afterwards is what it would have admitted without that call
+        try:
+            net.is_feasible(np.ones((n + 1, 2)), violation_tolerance=50.0, relative_tolerance=0.3)
+        except Exception:
+            obs.ev("malformed_candidates_with_tolerances_of_their_own_refused_before_the_search")
     groups_loaded = lambda v: len({ANG[ang[i]] for i in range(n) if v[i] > 0})
     max_ratio = 0.0
     accepted_pts, over_pts = [], []
